@@ -2,7 +2,7 @@
    and progress (registration + exit, in either order, then SIGCHLD, then a loop turn => reported). *)
 From Coq Require Import List ZArith Bool Arith Lia.
 Import ListNotations.
-From TV Require Import C42.Model C42.Spec C42.Proofs2.
+From TV Require Import C42.Model C42.Spec C42.Proofs2 C42.Proofs3.
 Local Open Scope Z_scope.
 
 Definition cb_valid (s : sub) : Prop :=
@@ -10,22 +10,45 @@ Definition cb_valid (s : sub) : Prop :=
   | Some (CbFut l i _) => nth_error (s_futs s) i = Some (l, FPending)
   | _ => True
   end.
+Definition cb_pending (cb : cbk) (futs : list (nat * fut)) : Prop :=
+  match cb with
+  | CbFut l i _ => nth_error futs i = Some (l, FPending)
+  | CbPlain _ => True
+  end.
+Definition late_idx (late : list (cbk * Z)) : list nat :=
+  flat_map (fun x => match fst x with CbFut _ i _ => [i] | CbPlain _ => [] end) late.
+Definition lates_ok (sid : nat) (es : list event) (rc : Z) (futs : list (nat * fut)) (late : list (cbk * Z)) : Prop :=
+  (forall cb rc', In (cb, rc') late -> rc' = rc /\ reg_ok sid es cb /\ cb_pending cb futs) /\ NoDup (late_idx late).
+
 Definition ph_status (ph : phase) : option Z :=
   match ph with PhRun => None | PhZombie st | PhQueued st | PhReported st => Some st end.
+
+Definition olabel (o : option cbk) : list nat := match o with Some cb => [cb_label cb] | None => [] end.
+(* the registrations that count: before the report the one in the slot; afterwards those that ran or are queued *)
+Definition active (c : cstate) : list nat :=
+  match s_rc (c_sub c) with
+  | Some _ => call_labels (c_calls c) ++ map (fun x => cb_label (fst x)) (c_late c)
+  | None => olabel (s_cb (c_sub c))
+  end.
+
+(* the body of the invariant once reported with a decodable status *)
+Definition RB (sid : nat) (es : list event) (rc : Z) (s : sub) (calls : list logev) (late : list (cbk * Z)) : Prop :=
+  s_rc s = Some rc /\
+  (exists cb0 rest, calls = LCall sid (cb_label cb0) rc :: rest /\ reg_ok sid es cb0 /\ cb_done cb0 rc (s_futs s)) /\
+  all_calls sid rc calls /\ lates_ok sid es rc (s_futs s) late /\ fut_ok sid es rc calls (s_futs s).
 
 Definition body (sid : nat) (es : list event) (c : cstate) : Prop :=
   let s := c_sub c in
   match c_ph c with
   | PhRun | PhZombie _ =>
-      s_rc s = None /\ c_calls c = [] /\ all_pending (s_futs s) /\ cb_valid s /\ (c_inw c = true <-> s_cb s <> None)
+      s_rc s = None /\ c_calls c = [] /\ c_late c = [] /\ all_pending (s_futs s) /\ cb_valid s /\
+      (c_inw c = true <-> s_cb s <> None)
   | PhQueued _ =>
-      s_rc s = None /\ c_calls c = [] /\ all_pending (s_futs s) /\ cb_valid s /\ s_cb s <> None
+      s_rc s = None /\ c_calls c = [] /\ c_late c = [] /\ all_pending (s_futs s) /\ cb_valid s /\ s_cb s <> None
   | PhReported st =>
       match decode st with
-      | Some rc => s_rc s = Some rc /\
-                   exists cb, c_calls c = [LCall sid (cb_label cb) rc] /\ reg_ok sid es cb /\
-                              cb_done cb rc (s_futs s) /\ others_pending cb (s_futs s)
-      | None => s_rc s = None /\ c_calls c = [LAssert sid] /\ all_pending (s_futs s)
+      | Some rc => RB sid es rc s (c_calls c) (c_late c)
+      | None => s_rc s = None /\ c_calls c = [LAssert sid] /\ c_late c = [] /\ all_pending (s_futs s)
       end
   end.
 
@@ -33,6 +56,7 @@ Record Inv (sid : nat) (p : Z) (es : list event) (c : cstate) : Prop := mkInv {
   i_pid : s_pid (c_sub c) = p;
   i_st : ph_status (c_ph c) = first_exit p es;
   i_cb : forall cb, s_cb (c_sub c) = Some cb -> reg_ok sid es cb;
+  i_lab : exists dropped, reg_labels sid es = dropped ++ active c;
   i_body : body sid es c
 }.
 
@@ -48,133 +72,359 @@ Proof.
   - destruct a; try exact IH. destruct (pid =? p); [reflexivity|exact IH].
 Qed.
 
+Lemma reg_labels_snoc sid es e :
+  reg_labels sid (es ++ [e]) = reg_labels sid es ++ match reg_label sid e with Some l => [l] | None => [] end.
+Proof. unfold reg_labels. rewrite flat_map_app. simpl. rewrite app_nil_r. reflexivity. Qed.
+
 Lemma reg_ok_mono sid es e cb : reg_ok sid es cb -> reg_ok sid (es ++ [e]) cb.
 Proof. destruct cb; simpl; intros H; apply in_or_app; left; exact H. Qed.
+
+Lemma lates_ok_mono sid es e rc futs late : lates_ok sid es rc futs late -> lates_ok sid (es ++ [e]) rc futs late.
+Proof.
+  intros [H N]. split; [|exact N]. intros cb rc' K. destruct (H cb rc' K) as [A [B C]].
+  split; [exact A|]. split; [apply reg_ok_mono; exact B|exact C].
+Qed.
+
+Lemma fut_ok_mono sid es e rc calls futs : fut_ok sid es rc calls futs -> fut_ok sid (es ++ [e]) rc calls futs.
+Proof.
+  intros H j l f Hj N. destruct (H j l f Hj N) as [re [A [B C]]]. exists re.
+  split; [exact A|]. split; [apply in_or_app; left; exact B|exact C].
+Qed.
+
+Lemma RB_mono sid es e rc s calls late : RB sid es rc s calls late -> RB sid (es ++ [e]) rc s calls late.
+Proof.
+  intros [A [[cb0 [rest [B1 [B2 B3]]]] [C [D E]]]]. split; [exact A|]. split.
+  - exists cb0, rest. split; [exact B1|]. split; [apply reg_ok_mono; exact B2|exact B3].
+  - split; [exact C|]. split; [apply lates_ok_mono; exact D|apply fut_ok_mono; exact E].
+Qed.
 
 Lemma body_mono sid es e c : body sid es c -> body sid (es ++ [e]) c.
 Proof.
   unfold body. destruct (c_ph c); try tauto.
-  destruct (decode st); [|tauto]. intros [H [cb [H1 [H2 H3]]]]. split; [exact H|].
-  exists cb. split; [exact H1|]. split; [apply reg_ok_mono; exact H2|exact H3].
+  destruct (decode st); [|tauto]. apply RB_mono.
 Qed.
 
-Lemma Inv_mono sid p es e c : Inv sid p es c -> first_exit p (es ++ [e]) = first_exit p es -> Inv sid p (es ++ [e]) c.
+Lemma Inv_mono sid p es e c : Inv sid p es c -> first_exit p (es ++ [e]) = first_exit p es ->
+  reg_label sid e = None -> Inv sid p (es ++ [e]) c.
 Proof.
-  intros [H1 H2 H3 H4] F. constructor; [exact H1|rewrite F; exact H2| |apply body_mono; exact H4].
-  intros cb H. apply reg_ok_mono. exact (H3 cb H).
+  intros [H1 H2 H3 [dr H5] H4] F L. constructor; [exact H1|rewrite F; exact H2| | |apply body_mono; exact H4].
+  - intros cb H. apply reg_ok_mono. exact (H3 cb H).
+  - exists dr. rewrite reg_labels_snoc, L, app_nil_r. exact H5.
 Qed.
 
 Lemma Inv_init sid p : Inv sid p [] (cinit p).
 Proof.
-  constructor; simpl; try reflexivity; [discriminate|].
+  constructor; simpl; try reflexivity; [discriminate|exists []; reflexivity|].
   unfold body, cb_valid, all_pending. simpl. repeat split; try constructor; try discriminate. intros H; congruence.
 Qed.
 
-Lemma all_pending_others cb futs : all_pending futs -> others_pending cb futs.
+Lemma resolve_not_pending re rc : resolve re rc <> FPending.
+Proof. unfold resolve. destruct (negb (rc =? 0) && re); discriminate. Qed.
+
+Lemma late_idx_in late j : In j (late_idx late) <-> exists l re rc', In (CbFut l j re, rc') late.
 Proof.
-  intros A j x H N. exfalso. apply N. apply nth_error_In in H.
-  exact (proj1 (Forall_forall _ _) A x H).
+  unfold late_idx. rewrite in_flat_map. split.
+  - intros [[cb rc'] [H K]]. simpl in K. destruct cb as [l|l i re]; [destruct K|].
+    destruct K as [<-|[]]. exists l, re, rc'. exact H.
+  - intros [l [re [rc' H]]]. exists (CbFut l j re, rc'). split; [exact H|left; reflexivity].
+Qed.
+
+Lemma late_idx_app a b : late_idx (a ++ b) = late_idx a ++ late_idx b.
+Proof. unfold late_idx. apply flat_map_app. Qed.
+
+Lemma call_labels_app a b : call_labels (a ++ b) = call_labels a ++ call_labels b.
+Proof. unfold call_labels. apply flat_map_app. Qed.
+
+Lemma NoDup_snoc {A} (l : list A) x : NoDup l -> ~ In x l -> NoDup (l ++ [x]).
+Proof.
+  induction l as [|a l IH]; intros ND N; simpl.
+  - constructor; [intros []|constructor].
+  - inversion ND as [|? ? H1 H2]; subst. constructor.
+    + intros K. apply in_app_or in K as [K|[K|[]]]; [contradiction|]. apply N. left; symmetry; exact K.
+    + apply IH; [exact H2|]. intros K. apply N. right; exact K.
 Qed.
 
 (* registration, as seen by the invariant *)
-Lemma Inv_reg sid p es c e mk cb extra :
+Lemma Inv_reg sid p es c e prep cbof extra :
   Inv sid p es c ->
-  mk (c_sub c) = mkSub (s_pid (c_sub c)) (Some cb) (s_rc (c_sub c)) (s_futs (c_sub c) ++ extra) ->
+  let s := c_sub c in
+  prep s = mkSub (s_pid s) (s_cb s) (s_rc s) (s_futs s ++ extra) ->
   all_pending extra ->
-  cb_valid (mk (c_sub c)) ->
-  reg_ok sid (es ++ [e]) cb ->
+  cb_pending (cbof s) (s_futs s ++ extra) ->
+  match cbof s with CbFut _ i _ => i = length (s_futs s) | CbPlain _ => True end ->
+  reg_ok sid (es ++ [e]) (cbof s) ->
+  reg_label sid e = Some (cb_label (cbof s)) ->
   first_exit p (es ++ [e]) = first_exit p es ->
-  Inv sid p (es ++ [e]) (creg mk c).
+  Inv sid p (es ++ [e]) (creg prep cbof c).
 Proof.
-  intros [H1 H2 H3 H4] Emk Pex Eval Ereg F.
-  destruct c as [s ph inw calls]. simpl in *. rewrite Emk in Eval.
-  unfold creg, ctry. simpl. unfold body in H4. simpl in H4.
-  assert (AP : all_pending (s_futs s) -> all_pending (s_futs s ++ extra)).
+  intros [H1 H2 H3 [dr H5] H4] s Eprep Pex Epend Eidx Ereg Elab F.
+  destruct c as [s0 ph inw calls late]. cbn [c_sub c_ph c_inw c_calls c_late] in *. subst s.
+  remember (cbof s0) as Cb eqn:HCb.
+  assert (AP : all_pending (s_futs s0) -> all_pending (s_futs s0 ++ extra)).
   { intros C. apply Forall_app. split; assumption. }
-  destruct ph as [|st|st|st]; simpl.
-  - constructor; simpl; rewrite ?Emk; simpl; [exact H1|rewrite F; exact H2|intros cb' [= <-]; exact Ereg|].
-    unfold body. simpl. rewrite ?Emk. simpl. destruct H4 as [A [B [C [D E]]]].
-    repeat split; try assumption; try (apply AP; assumption); try discriminate.
-  - constructor; simpl; rewrite ?Emk; simpl; [exact H1|rewrite F; exact H2|intros cb' [= <-]; exact Ereg|].
-    unfold body. simpl. rewrite ?Emk. simpl. destruct H4 as [A [B [C [D E]]]].
-    repeat split; try assumption; try (apply AP; assumption); try discriminate.
-  - constructor; simpl; rewrite ?Emk; simpl; [exact H1|rewrite F; exact H2|intros cb' [= <-]; exact Ereg|].
-    unfold body. simpl. rewrite ?Emk. simpl. destruct H4 as [A [B [C [D E]]]].
-    repeat split; try assumption; try (apply AP; assumption); try discriminate.
-  - constructor; simpl; rewrite ?Emk; simpl; [exact H1|rewrite F; exact H2|intros cb' [= <-]; exact Ereg|].
-    unfold body. simpl. rewrite ?Emk. simpl. destruct (decode st) as [rc|].
-    + destruct H4 as [A [cb0 [B [C [D E]]]]]. split; [exact A|]. exists cb0.
-      split; [exact B|]. split; [apply reg_ok_mono; exact C|]. split.
-      * unfold cb_done in *. destruct cb0 as [l|l i re]; [exact I|].
-        rewrite nth_error_app1 by exact (nth_error_lt _ _ _ D). exact D.
-      * intros j x Hj N.
-        destruct (Nat.lt_ge_cases j (length (s_futs s))) as [L|L].
-        -- rewrite nth_error_app1 in Hj by exact L. exact (E j x Hj N).
+  assert (Lab : reg_labels sid (es ++ [e]) = (dr ++ active (mkC s0 ph inw calls late)) ++ [cb_label Cb]).
+  { rewrite reg_labels_snoc, Elab, H5. reflexivity. }
+  unfold creg. cbn [c_sub c_ph c_inw c_calls c_late]. rewrite Eprep. rewrite <- ?HCb.
+  unfold body in H4. cbn [c_sub c_ph c_inw c_calls c_late] in H4.
+  destruct (s_rc s0) as [rc|] eqn:Rc.
+  - (* the exit was already reported: callback(returncode) is queued *)
+    assert (Hrb : exists st, ph = PhReported st /\ decode st = Some rc /\ RB sid es rc s0 calls late).
+    { destruct ph as [|st|st|st]; try (destruct H4 as [A _]; discriminate A).
+      exists st. destruct (decode st) as [rc0|] eqn:Dc; [|destruct H4 as [A _]; discriminate A].
+      pose proof H4 as [A _]. assert (rc0 = rc) by congruence. subst rc0.
+      split; [reflexivity|]. split; [reflexivity|exact H4]. }
+    destruct Hrb as [st [-> [Dc [A [[cb0 [rest [B1 [B2 B3]]]] [C [[D1 D2] E]]]]]]].
+    constructor; cbn [c_sub c_ph c_inw c_calls c_late s_pid s_cb s_rc s_futs].
+    + exact H1.
+    + rewrite F. exact H2.
+    + intros cb H. apply reg_ok_mono. exact (H3 cb H).
+    + exists dr. rewrite Lab. unfold active. cbn [c_sub c_calls c_late s_rc]. rewrite Rc, map_app. simpl.
+      rewrite <- !app_assoc. reflexivity.
+    + unfold body. cbn [c_sub c_ph c_inw c_calls c_late]. rewrite Dc. unfold RB. cbn [s_rc s_futs].
+      split; [reflexivity|]. split; [|split; [exact C|split]].
+      * exists cb0, rest. split; [exact B1|]. split; [apply reg_ok_mono; exact B2|].
+        unfold cb_done in *. destruct cb0 as [l|l i re]; [exact I|].
+        rewrite nth_error_app1 by exact (nth_error_lt _ _ _ B3). exact B3.
+      * split.
+        -- intros cb rc' K. apply in_app_or in K as [K|[K|[]]].
+           ++ destruct (D1 cb rc' K) as [X [Y Z]]. split; [exact X|]. split; [apply reg_ok_mono; exact Y|].
+              unfold cb_pending in *. destruct cb as [l|l i re]; [exact I|].
+              rewrite nth_error_app1 by exact (nth_error_lt _ _ _ Z). exact Z.
+           ++ injection K as <- <-. split; [reflexivity|]. split; [exact Ereg|exact Epend].
+        -- rewrite late_idx_app. unfold late_idx at 2. simpl. destruct Cb as [l|l i re]; simpl.
+           ++ rewrite app_nil_r. exact D2.
+           ++ apply NoDup_snoc; [exact D2|]. intros K. apply late_idx_in in K as [l' [re' [rc' K]]].
+              destruct (D1 _ _ K) as [_ [_ Z]]. simpl in Z. apply nth_error_lt in Z. lia.
+      * intros j l f Hj N.
+        destruct (Nat.lt_ge_cases j (length (s_futs s0))) as [L|L].
+        -- rewrite nth_error_app1 in Hj by exact L. destruct (E j l f Hj N) as [re [X [Y Z]]].
+           exists re. split; [exact X|]. split; [apply in_or_app; left; exact Y|exact Z].
         -- rewrite nth_error_app2 in Hj by exact L. apply nth_error_In in Hj.
-           exfalso. apply N. exact (proj1 (Forall_forall _ _) Pex x Hj).
-    + destruct H4 as [A [B C]]. repeat split; try assumption. apply AP; assumption.
+           exfalso. apply N. exact (proj1 (Forall_forall _ _) Pex _ Hj).
+  - (* not reported yet: store the callback, enter _waiting, probe the child *)
+    assert (Lab' : exists dropped, reg_labels sid (es ++ [e]) = dropped ++ [cb_label Cb]).
+    { eexists. exact Lab. }
+    assert (Val : cb_valid (set_cb Cb (mkSub (s_pid s0) (s_cb s0) None (s_futs s0 ++ extra)))).
+    { unfold cb_valid, set_cb. simpl. unfold cb_pending in Epend. destruct Cb; [exact I|exact Epend]. }
+    unfold ctry. cbn [c_sub c_ph c_inw c_calls c_late].
+    destruct ph as [|st|st|st]; cbn [c_sub c_ph c_inw c_calls c_late].
+    + destruct H4 as [A [B [C [D [E G]]]]].
+      constructor; cbn [c_sub c_ph c_inw c_calls c_late set_cb s_pid s_cb s_rc s_futs];
+        [exact H1|rewrite F; exact H2|intros cb' [= <-]; exact Ereg|exact Lab'|].
+      unfold body. cbn [c_sub c_ph c_inw c_calls c_late set_cb s_pid s_cb s_rc s_futs].
+      repeat split; try assumption; try (apply AP; assumption); try discriminate.
+    + destruct H4 as [A [B [C [D [E G]]]]].
+      constructor; cbn [c_sub c_ph c_inw c_calls c_late set_cb s_pid s_cb s_rc s_futs];
+        [exact H1|rewrite F; exact H2|intros cb' [= <-]; exact Ereg|exact Lab'|].
+      unfold body. cbn [c_sub c_ph c_inw c_calls c_late set_cb s_pid s_cb s_rc s_futs].
+      repeat split; try assumption; try (apply AP; assumption); try discriminate.
+    + destruct H4 as [A [B [C [D [E G]]]]].
+      constructor; cbn [c_sub c_ph c_inw c_calls c_late set_cb s_pid s_cb s_rc s_futs];
+        [exact H1|rewrite F; exact H2|intros cb' [= <-]; exact Ereg|exact Lab'|].
+      unfold body. cbn [c_sub c_ph c_inw c_calls c_late set_cb s_pid s_cb s_rc s_futs].
+      repeat split; try assumption; try (apply AP; assumption); try discriminate.
+    + constructor; cbn [c_sub c_ph c_inw c_calls c_late set_cb s_pid s_cb s_rc s_futs];
+        [exact H1|rewrite F; exact H2|intros cb' [= <-]; exact Ereg|exact Lab'|].
+      unfold body. cbn [c_sub c_ph c_inw c_calls c_late set_cb s_pid s_cb s_rc s_futs].
+      destruct (decode st) as [rc|].
+      * destruct H4 as [A _]. congruence.
+      * destruct H4 as [A [B [C D]]]. repeat split; try assumption. apply AP; assumption.
+Qed.
+
+(* _set_returncode, as seen by the invariant *)
+Lemma Inv_report sid p es c st : Inv sid p es c -> c_ph c = PhQueued st -> Inv sid p es (creport sid st c).
+Proof.
+  intros [H1 H2 H3 [dr H5] H4] P.
+  destruct c as [s ph inw calls late]. cbn [c_sub c_ph c_inw c_calls c_late] in *. subst ph.
+  unfold body in H4. cbn [c_sub c_ph c_inw c_calls c_late] in H4. destruct H4 as [A [B [C [D [E G]]]]]. subst calls late.
+  unfold active in H5. cbn [c_sub c_calls c_late] in H5. rewrite A in H5.
+  unfold creport. cbn [c_sub c_ph c_inw c_calls c_late].
+  destruct (decode st) as [rc|] eqn:Dc.
+  - destruct (s_cb s) as [cb|] eqn:Hcb; [|congruence].
+    pose proof (H3 cb eq_refl) as Rk.
+    assert (Lab : exists dropped, reg_labels sid es = dropped ++ [cb_label cb] ++ []) by (exists dr; exact H5).
+    destruct cb as [l|l i re]; cbn [invoke s_futs].
+    + constructor; cbn [c_sub c_ph c_inw c_calls c_late s_pid s_cb s_rc s_futs app];
+        [exact H1|exact H2|intros ? K; discriminate K|exact Lab|].
+      unfold body. cbn [c_sub c_ph c_inw c_calls c_late]. rewrite Dc. unfold RB. cbn [s_rc s_futs].
+      split; [reflexivity|]. split; [exists (CbPlain l), []; repeat split; exact Rk|].
+      split; [constructor; [exists l; reflexivity|constructor]|].
+      split; [split; [intros ? ? []|constructor]|].
+      intros j l' f Hj N. exfalso. apply N. apply nth_error_In in Hj. exact (proj1 (Forall_forall _ _) D _ Hj).
+    + unfold cb_valid in E. rewrite Hcb in E. rewrite E.
+      constructor; cbn [c_sub c_ph c_inw c_calls c_late s_pid s_cb s_rc s_futs app];
+        [exact H1|exact H2|intros ? K; discriminate K|exact Lab|].
+      unfold body. cbn [c_sub c_ph c_inw c_calls c_late]. rewrite Dc. unfold RB. cbn [s_rc s_futs].
+      split; [reflexivity|]. split.
+      * exists (CbFut l i re), []. split; [reflexivity|]. split; [exact Rk|].
+        simpl. apply nth_upd_same. exact (nth_error_lt _ _ _ E).
+      * split; [constructor; [exists l; reflexivity|constructor]|].
+        split; [split; [intros ? ? []|constructor]|].
+        intros j l' f Hj N. destruct (Nat.eq_dec i j) as [<-|NE].
+        -- rewrite nth_upd_same in Hj by exact (nth_error_lt _ _ _ E). injection Hj as <- <-.
+           exists re. split; [reflexivity|]. split; [exact Rk|left; reflexivity].
+        -- rewrite nth_upd_other in Hj by exact NE. exfalso. apply N. apply nth_error_In in Hj.
+           exact (proj1 (Forall_forall _ _) D _ Hj).
+  - constructor; cbn [c_sub c_ph c_inw c_calls c_late app]; [exact H1|exact H2|exact H3| |].
+    + exists dr. unfold active. cbn [c_sub]. rewrite A. exact H5.
+    + unfold body. cbn [c_sub c_ph c_inw c_calls c_late]. rewrite Dc. repeat split; assumption.
+Qed.
+
+(* the queued callback(returncode) calls, as seen by the invariant *)
+Definition stays (a b : list (nat * fut)) : Prop :=
+  forall j x, nth_error a j = Some x -> snd x <> FPending -> nth_error b j = Some x.
+
+(* the oldest queued call runs *)
+Lemma RB_head sid es rc cb rc' late s calls : RB sid es rc s calls ((cb, rc') :: late) ->
+  let s3 := fst (invoke sid s cb rc') in
+  rc' = rc /\ snd (invoke sid s cb rc') = [LCall sid (cb_label cb) rc] /\
+  RB sid es rc s3 (calls ++ [LCall sid (cb_label cb) rc]) late /\
+  s_pid s3 = s_pid s /\ s_cb s3 = s_cb s /\ stays (s_futs s) (s_futs s3) /\ cb_done cb rc (s_futs s3).
+Proof.
+  intros [A [[cb0 [rest [B1 [B2 B3]]]] [C [[D1 D2] E]]]].
+  destruct (D1 cb rc' (or_introl eq_refl)) as [-> [Rk Pd]].
+  assert (Tail : forall futs', (forall cb' rc'', In (cb', rc'') late -> cb_pending cb' futs') ->
+                 lates_ok sid es rc futs' late).
+  { intros futs' K. split.
+    - intros cb' rc'' Hin. destruct (D1 cb' rc'' (or_intror Hin)) as [X [Y _]]. split; [exact X|]. split; [exact Y|exact (K _ _ Hin)].
+    - unfold late_idx in D2 |- *. simpl in D2. destruct cb; simpl in D2; [exact D2|inversion D2; assumption]. }
+  assert (Calls : all_calls sid rc (calls ++ [LCall sid (cb_label cb) rc])).
+  { apply Forall_app; split; [exact C|constructor; [eexists; reflexivity|constructor]]. }
+  destruct cb as [l|l i re]; cbn [invoke fst snd cb_label].
+  - split; [reflexivity|]. split; [reflexivity|]. split.
+    + split; [exact A|]. split; [exists cb0, (rest ++ [LCall sid l rc]); rewrite B1; auto|].
+      split; [exact Calls|]. split.
+      * apply Tail. intros cb' rc'' Hin. exact (proj2 (proj2 (D1 _ _ (or_intror Hin)))).
+      * intros j l' f Hj N. destruct (E j l' f Hj N) as [re [X [Y Z]]]. exists re.
+        split; [exact X|]. split; [exact Y|apply in_or_app; left; exact Z].
+    + split; [reflexivity|]. split; [reflexivity|]. split; [intros j x H _; exact H|exact I].
+  - simpl in Pd. rewrite Pd. cbn [fst snd s_futs s_pid s_cb].
+    assert (Li := nth_error_lt _ _ _ Pd).
+    assert (Nin : ~ In i (late_idx late)).
+    { unfold late_idx in D2. simpl in D2. inversion D2; assumption. }
+    assert (St : stays (s_futs s) (upd_nth i (l, resolve re rc) (s_futs s))).
+    { intros j x Hj N. destruct (Nat.eq_dec i j) as [<-|NE]; [|rewrite nth_upd_other by exact NE; exact Hj].
+      rewrite Pd in Hj. injection Hj as <-. exfalso. apply N. reflexivity. }
+    split; [reflexivity|]. split; [reflexivity|]. split.
+    + split; [exact A|]. split.
+      * exists cb0, (rest ++ [LCall sid l rc]). split; [rewrite B1; reflexivity|]. split; [exact B2|].
+        unfold cb_done in *. destruct cb0 as [l0|l0 i0 re0]; [exact I|].
+        apply St; [exact B3|]. simpl. apply resolve_not_pending.
+      * split; [exact Calls|]. split.
+        -- apply Tail. intros cb' rc'' Hin. pose proof (proj2 (proj2 (D1 _ _ (or_intror Hin)))) as Z.
+           unfold cb_pending in *. destruct cb' as [l'|l' j re']; [exact I|]. cbv beta iota in Z |- *. cbn [s_futs].
+           destruct (Nat.eq_dec i j) as [<-|NE]; [|rewrite nth_upd_other by exact NE; exact Z].
+           exfalso. apply Nin. apply late_idx_in. eauto.
+        -- intros j l' f Hj N. cbn [s_futs] in Hj. destruct (Nat.eq_dec i j) as [<-|NE].
+           ++ rewrite nth_upd_same in Hj by exact Li. injection Hj as <- <-. exists re.
+              split; [reflexivity|]. split; [exact Rk|apply in_or_app; right; left; reflexivity].
+           ++ rewrite nth_upd_other in Hj by exact NE. destruct (E j l' f Hj N) as [re1 [X [Y Z]]]. exists re1.
+              split; [exact X|]. split; [exact Y|apply in_or_app; left; exact Z].
+    + split; [reflexivity|]. split; [reflexivity|]. split; [exact St|]. simpl. apply nth_upd_same. exact Li.
+Qed.
+
+Lemma run_lates_unfold sid s calls cb rc late :
+  run_lates sid s calls ((cb, rc) :: late) =
+  run_lates sid (fst (invoke sid s cb rc)) (calls ++ snd (invoke sid s cb rc)) late.
+Proof. simpl. destruct (invoke sid s cb rc). reflexivity. Qed.
+
+Lemma RB_run sid es rc : forall late s calls, RB sid es rc s calls late ->
+  let r := run_lates sid s calls late in
+  RB sid es rc (fst r) (snd r) [] /\ s_pid (fst r) = s_pid s /\ s_cb (fst r) = s_cb s /\
+  call_labels (snd r) = call_labels calls ++ map (fun x => cb_label (fst x)) late /\
+  (forall x, In x calls -> In x (snd r)) /\ stays (s_futs s) (s_futs (fst r)) /\
+  (forall cb rc', In (cb, rc') late -> In (LCall sid (cb_label cb) rc) (snd r) /\ cb_done cb rc (s_futs (fst r))).
+Proof.
+  induction late as [|[cb rc'] late IH]; intros s calls H.
+  - simpl. rewrite app_nil_r. split; [exact H|]. split; [reflexivity|]. split; [reflexivity|]. split; [reflexivity|].
+    split; [auto|]. split; [intros j x K _; exact K|intros ? ? []].
+  - destruct (RB_head sid es rc cb rc' late s calls H) as [-> [Ev [H3 [P3 [C3 [St3 Dn3]]]]]].
+    cbv zeta. rewrite run_lates_unfold, Ev.
+    destruct (IH _ _ H3) as [Y1 [Y2 [Y3 [Y4 [Y5 [Y6 Y7]]]]]].
+    split; [exact Y1|]. split; [congruence|]. split; [congruence|]. split.
+    + rewrite Y4, call_labels_app. simpl. rewrite <- app_assoc. reflexivity.
+    + split; [intros x K; apply Y5; apply in_or_app; left; exact K|]. split.
+      * intros j x K N. apply Y6; [apply St3; assumption|exact N].
+      * intros cb' rc'' [K|K]; [|exact (Y7 _ _ K)]. injection K as <- <-. split.
+        -- apply Y5. apply in_or_app. right. left. reflexivity.
+        -- unfold cb_done in *. destruct cb as [l|l i re]; [exact I|].
+           apply Y6; [exact Dn3|]. simpl. apply resolve_not_pending.
+Qed.
+
+Lemma crun_late_nil sid s ph inw calls : crun_late sid (mkC s ph inw calls []) = mkC s ph inw calls [].
+Proof. reflexivity. Qed.
+
+Lemma Inv_runlate sid p es c : Inv sid p es c -> Inv sid p es (crun_late sid c).
+Proof.
+  intros Hc. pose proof Hc as [H1 H2 H3 [dr H5] H4].
+  destruct c as [s ph inw calls late].
+  destruct late as [|x late]; [exact Hc|].
+  cbn [c_sub c_ph c_inw c_calls c_late] in *. unfold body in H4. cbn [c_sub c_ph c_inw c_calls c_late] in H4.
+  destruct ph as [|st|st|st]; try (destruct H4 as [_ [_ [K _]]]; discriminate K).
+  destruct (decode st) as [rc|] eqn:Dc; [|destruct H4 as [_ [_ [K _]]]; discriminate K].
+  pose proof (RB_run sid es rc (x :: late) s calls H4) as [Y1 [Y2 [Y3 [Y4 _]]]].
+  unfold crun_late. cbn [c_sub c_ph c_inw c_calls c_late].
+  destruct (run_lates sid s calls (x :: late)) as [s' calls']. cbn [fst snd] in *.
+  constructor; cbn [c_sub c_ph c_inw c_calls c_late].
+  - congruence.
+  - exact H2.
+  - intros cb K. apply H3. congruence.
+  - exists dr. rewrite H5. unfold active. cbn [c_sub c_calls c_late].
+    destruct H4 as [A _]. destruct Y1 as [A' _]. rewrite A, A', Y4. simpl. rewrite app_nil_r. reflexivity.
+  - unfold body. cbn [c_sub c_ph c_inw c_calls c_late]. rewrite Dc. exact Y1.
 Qed.
 
 Lemma Inv_step sid p es c e : Inv sid p es c -> Inv sid p (es ++ [e]) (cstep sid c e).
 Proof.
-  intros Hc. pose proof Hc as [H1 H2 H3 H4].
+  intros Hc. pose proof Hc as [H1 H2 H3 H5 H4].
   pose proof (first_exit_snoc p es e) as F.
-  destruct e as [q|q st| |s l|s l re|]; simpl.
-  - apply Inv_mono; [exact Hc|]. rewrite F. destruct (first_exit p es); reflexivity.
+  destruct e as [q|q st| |s l|s l re|]; cbn [cstep].
+  - apply Inv_mono; [exact Hc| |reflexivity]. rewrite F. destruct (first_exit p es); reflexivity.
   - rewrite H1. destruct (q =? p) eqn:E.
-    + destruct c as [s ph inw calls]. cbn [c_sub c_ph c_inw c_calls] in *.
+    + destruct c as [s ph inw calls late]. cbn [c_sub c_ph c_inw c_calls c_late] in *.
       destruct ph as [|st'|st'|st']; simpl in H2;
-        try (apply Inv_mono; [exact Hc|]; rewrite F, <- H2; reflexivity).
-      constructor; simpl; [exact H1|rewrite F, <- H2; reflexivity| |].
+        try (apply Inv_mono; [exact Hc| |reflexivity]; rewrite F, <- H2; reflexivity).
+      constructor; cbn [c_sub c_ph c_inw c_calls c_late]; [exact H1|rewrite F, <- H2; reflexivity| | |].
       * intros cb H. apply reg_ok_mono. exact (H3 cb H).
+      * destruct H5 as [dr H5]. exists dr. rewrite reg_labels_snoc. simpl. rewrite app_nil_r. exact H5.
       * exact H4.
-    + apply Inv_mono; [exact Hc|]. rewrite F. destruct (first_exit p es); reflexivity.
+    + apply Inv_mono; [exact Hc| |reflexivity]. rewrite F. destruct (first_exit p es); reflexivity.
   - assert (F' : first_exit p (es ++ [ESigchld]) = first_exit p es) by (rewrite F; destruct (first_exit p es); reflexivity).
-    destruct c as [s ph inw calls]. cbn [c_sub c_ph c_inw c_calls] in *.
-    destruct inw; [|apply Inv_mono; assumption].
-    unfold ctry. simpl. destruct ph as [|st'|st'|st']; try (apply Inv_mono; assumption).
-    constructor; simpl; [exact H1|rewrite F'; exact H2| |].
+    destruct c as [s ph inw calls late]. cbn [c_sub c_ph c_inw c_calls c_late] in *.
+    destruct inw; [|apply Inv_mono; [assumption|assumption|reflexivity]].
+    unfold ctry. cbn [c_sub c_ph c_inw c_calls c_late].
+    destruct ph as [|st'|st'|st']; try (apply Inv_mono; [assumption|assumption|reflexivity]).
+    constructor; cbn [c_sub c_ph c_inw c_calls c_late]; [exact H1|rewrite F'; exact H2| | |].
     * intros cb H. apply reg_ok_mono. exact (H3 cb H).
-    * unfold body in *. simpl in *. destruct H4 as [A [B [C [D E]]]].
-      repeat split; try assumption. apply E. reflexivity.
+    * destruct H5 as [dr H5]. exists dr. rewrite reg_labels_snoc. simpl. rewrite app_nil_r. exact H5.
+    * unfold body in *. cbn [c_sub c_ph c_inw c_calls c_late] in *. destruct H4 as [A [B [C [D [E G]]]]].
+      repeat split; try assumption. apply G. reflexivity.
   - assert (F' : first_exit p (es ++ [EReg s l]) = first_exit p es) by (rewrite F; destruct (first_exit p es); reflexivity).
-    destruct (Nat.eqb s sid) eqn:E; [|apply Inv_mono; assumption].
+    destruct (Nat.eqb s sid) eqn:E.
+    2:{ apply Inv_mono; [assumption|assumption|]. simpl. rewrite E. reflexivity. }
     apply Nat.eqb_eq in E. subst s.
-    apply (Inv_reg sid p es c (EReg sid l) (set_cb (CbPlain l)) (CbPlain l) []); try assumption.
-    + unfold set_cb. rewrite app_nil_r. reflexivity.
+    apply (Inv_reg sid p es c (EReg sid l) prep_plain (cb_plain l) []); try assumption.
+    + unfold prep_plain. rewrite app_nil_r. destruct (c_sub c); reflexivity.
     + constructor.
     + exact I.
+    + exact I.
     + simpl. apply in_or_app. right. left. reflexivity.
+    + simpl. rewrite Nat.eqb_refl. reflexivity.
   - assert (F' : first_exit p (es ++ [EWait s l re]) = first_exit p es) by (rewrite F; destruct (first_exit p es); reflexivity).
-    destruct (Nat.eqb s sid) eqn:E; [|apply Inv_mono; assumption].
+    destruct (Nat.eqb s sid) eqn:E.
+    2:{ apply Inv_mono; [assumption|assumption|]. simpl. rewrite E. reflexivity. }
     apply Nat.eqb_eq in E. subst s.
-    apply (Inv_reg sid p es c (EWait sid l re) (add_fut l re) (CbFut l (length (s_futs (c_sub c))) re) [(l, FPending)]); try assumption.
+    apply (Inv_reg sid p es c (EWait sid l re) (prep_fut l) (cb_fut l re) [(l, FPending)]); try assumption.
     + reflexivity.
     + constructor; [reflexivity|constructor].
-    + unfold cb_valid, add_fut. simpl. rewrite nth_error_app2 by lia. rewrite Nat.sub_diag. reflexivity.
+    + unfold cb_pending, cb_fut. rewrite nth_error_app2 by lia. rewrite Nat.sub_diag. reflexivity.
+    + reflexivity.
     + simpl. apply in_or_app. right. left. reflexivity.
+    + simpl. rewrite Nat.eqb_refl. reflexivity.
   - assert (F' : first_exit p (es ++ [ELoop]) = first_exit p es) by (rewrite F; destruct (first_exit p es); reflexivity).
-    destruct c as [s ph inw calls]. cbn [c_sub c_ph c_inw c_calls] in *.
-    destruct ph as [|st'|st'|st']; try (apply Inv_mono; assumption).
-    unfold body in H4. cbn [c_sub c_ph c_inw c_calls] in H4. destruct H4 as [A [B [C [D E]]]].
-    unfold creport. cbn [c_sub c_ph c_inw c_calls].
-    destruct (decode st') as [rc|] eqn:Dc.
-    + destruct (s_cb s) as [cb|] eqn:Hcb; [|congruence].
-      pose proof (H3 cb eq_refl) as Rk.
-      destruct cb as [l|l i re]; simpl.
-      * constructor; simpl; [exact H1|rewrite F'; exact H2|intros ? K; discriminate K|].
-        unfold body. simpl. rewrite Dc. split; [reflexivity|]. exists (CbPlain l). rewrite B. simpl.
-        split; [reflexivity|]. split; [exact (reg_ok_mono sid es ELoop (CbPlain l) Rk)|]. split; [exact I|apply all_pending_others; exact C].
-      * unfold cb_valid in D. rewrite Hcb in D. rewrite D.
-        constructor; simpl; [exact H1|rewrite F'; exact H2|intros ? K; discriminate K|].
-        unfold body. simpl. rewrite Dc. split; [reflexivity|]. exists (CbFut l i re). rewrite B. simpl.
-        split; [reflexivity|]. split; [exact (reg_ok_mono sid es ELoop (CbFut l i re) Rk)|]. split.
-        -- apply nth_upd_same. exact (nth_error_lt _ _ _ D).
-        -- intros j x Hj N. destruct (Nat.eq_dec i j) as [<-|NE]; [exists l, re; reflexivity|].
-           rewrite nth_upd_other in Hj by exact NE. exfalso. apply N. apply nth_error_In in Hj.
-           exact (proj1 (Forall_forall _ _) C x Hj).
-    + constructor; simpl; [exact H1|rewrite F'; exact H2|intros cb H; apply reg_ok_mono; exact (H3 cb H)|].
-      unfold body. simpl. rewrite Dc, B. repeat split; assumption.
+    assert (Hc' : Inv sid p (es ++ [ELoop]) c) by (apply Inv_mono; [assumption|assumption|reflexivity]).
+    unfold cloop. apply Inv_runlate.
+    destruct (c_ph c) eqn:P; try exact Hc'. apply Inv_report; assumption.
 Qed.
 
 Lemma Inv_fold sid p r : forall es c, Inv sid p es c -> Inv sid p (es ++ r) (fold_left (cstep sid) r c).
@@ -196,67 +446,99 @@ Definition reported (st : Z) (c : cstate) : Prop := c_ph c = PhReported st.
 Definition registered (c : cstate) : Prop :=
   c_inw c = true \/ exists st, c_ph c = PhQueued st \/ c_ph c = PhReported st.
 
-Lemma creport_ph' sid st c : c_ph (creport sid st c) = PhReported st.
+Lemma ctry_phase c :
+  match c_ph c with
+  | PhZombie st => c_ph (ctry c) = PhZombie st \/ c_ph (ctry c) = PhQueued st
+  | ph => c_ph (ctry c) = ph
+  end.
+Proof. unfold ctry. destruct c as [s [|st|st|st] [|] calls lt]; simpl; auto. Qed.
+
+Lemma creg_phase prep cbof c :
+  match c_ph c with
+  | PhZombie st => c_ph (creg prep cbof c) = PhZombie st \/ c_ph (creg prep cbof c) = PhQueued st
+  | ph => c_ph (creg prep cbof c) = ph
+  end.
 Proof.
-  unfold creport. destruct (decode st) as [rc|]; [|reflexivity].
-  destruct (s_cb (c_sub c)) as [cb|]; [|reflexivity].
-  destruct (invoke sid _ cb rc) as [s3 evs]. reflexivity.
+  unfold creg. destruct (s_rc (c_sub c)).
+  - simpl. destruct (c_ph c); auto.
+  - pose proof (ctry_phase (mkC (set_cb (cbof (c_sub c)) (prep (c_sub c))) (c_ph c) true (c_calls c) (c_late c))) as H.
+    simpl in H. exact H.
 Qed.
-Lemma creport_inw sid st c : c_inw (creport sid st c) = c_inw c.
+
+Lemma cloop_phase sid c :
+  match c_ph c with
+  | PhQueued st => c_ph (cloop sid c) = PhReported st
+  | ph => c_ph (cloop sid c) = ph
+  end.
 Proof.
-  unfold creport. destruct (decode st) as [rc|]; [|reflexivity].
-  destruct (s_cb (c_sub c)) as [cb|]; [|reflexivity].
-  destruct (invoke sid _ cb rc) as [s3 evs]. reflexivity.
+  unfold cloop. destruct (c_ph c) eqn:P.
+  - destruct (crun_late_ph sid c) as [A _]. congruence.
+  - destruct (crun_late_ph sid c) as [A _]. congruence.
+  - destruct (crun_late_ph sid (creport sid st c)) as [A _]. destruct (creport_ph sid st c) as [B _]. congruence.
+  - destruct (crun_late_ph sid c) as [A _]. congruence.
 Qed.
 
 (* what one event can do to the phase *)
 Lemma cstep_phase sid c e :
-  let c' := cstep sid c e in
   match c_ph c with
-  | PhRun => c_ph c' = PhRun \/ exists st, c_ph c' = PhZombie st
-  | PhZombie st => c_ph c' = PhZombie st \/ c_ph c' = PhQueued st
-  | PhQueued st => c_ph c' = PhQueued st \/ c_ph c' = PhReported st
-  | PhReported st => c_ph c' = PhReported st
+  | PhRun => c_ph (cstep sid c e) = PhRun \/ exists st, c_ph (cstep sid c e) = PhZombie st
+  | PhZombie st => c_ph (cstep sid c e) = PhZombie st \/ c_ph (cstep sid c e) = PhQueued st
+  | PhQueued st => c_ph (cstep sid c e) = PhQueued st \/ c_ph (cstep sid c e) = PhReported st
+  | PhReported st => c_ph (cstep sid c e) = PhReported st
   end.
 Proof.
-  destruct c as [s ph inw calls].
-  destruct e as [q|q st0| |s0 l|s0 l re|]; simpl.
-  - destruct ph; auto.
-  - destruct (q =? s_pid s); destruct ph; simpl; eauto.
-  - destruct inw; unfold ctry; simpl; destruct ph; simpl; auto. 
-  - destruct (Nat.eqb s0 sid); unfold creg, ctry; simpl; destruct ph; simpl; auto.
-  - destruct (Nat.eqb s0 sid); unfold creg, ctry; simpl; destruct ph; simpl; auto.
-  - destruct ph; simpl; auto. right. apply creport_ph'.
+  destruct e as [q|q st0| |s0 l|s0 l re|]; cbn [cstep].
+  - destruct (c_ph c); auto.
+  - destruct (q =? s_pid (c_sub c)); destruct (c_ph c) eqn:P; simpl; rewrite ?P; eauto.
+  - destruct (c_inw c); [|destruct (c_ph c); auto]. pose proof (ctry_phase c) as H. destruct (c_ph c); auto.
+  - destruct (Nat.eqb s0 sid); [|destruct (c_ph c); auto].
+    pose proof (creg_phase prep_plain (cb_plain l) c) as H. destruct (c_ph c); auto.
+  - destruct (Nat.eqb s0 sid); [|destruct (c_ph c); auto].
+    pose proof (creg_phase (prep_fut l) (cb_fut l re) c) as H. destruct (c_ph c); auto.
+  - pose proof (cloop_phase sid c) as H. destruct (c_ph c); auto.
 Qed.
 
 Lemma exited_step sid st c e : exited st c -> exited st (cstep sid c e).
 Proof.
-  unfold exited. pose proof (cstep_phase sid c e) as H. simpl in H.
+  unfold exited. pose proof (cstep_phase sid c e) as H.
   intros [E|[E|E]]; rewrite E in H; tauto.
 Qed.
 Lemma reaped_step sid st c e : reaped st c -> reaped st (cstep sid c e).
 Proof.
-  unfold reaped. pose proof (cstep_phase sid c e) as H. simpl in H.
+  unfold reaped. pose proof (cstep_phase sid c e) as H.
   intros [E|E]; rewrite E in H; tauto.
 Qed.
 Lemma reported_step sid st c e : reported st c -> reported st (cstep sid c e).
 Proof.
-  unfold reported. pose proof (cstep_phase sid c e) as H. simpl in H.
+  unfold reported. pose proof (cstep_phase sid c e) as H.
   intros E; rewrite E in H; tauto.
+Qed.
+
+Lemma creg_inw prep cbof c : c_inw c = true ->
+  c_inw (creg prep cbof c) = true \/ exists st, c_ph (creg prep cbof c) = PhQueued st.
+Proof.
+  intros H. unfold creg. destruct (s_rc (c_sub c)); [left; exact H|].
+  unfold ctry. simpl. destruct (c_ph c); simpl; eauto.
 Qed.
 
 Lemma registered_step sid c e : registered c -> registered (cstep sid c e).
 Proof.
   unfold registered. intros [H|[st H]].
-  - destruct c as [s ph inw calls]. simpl in H. subst inw.
-    destruct e as [q|q st0| |s0 l|s0 l re|]; simpl.
-    + left; reflexivity.
-    + destruct (q =? s_pid s); destruct ph; simpl; auto.
-    + unfold ctry; simpl. destruct ph; simpl; eauto.
-    + destruct (Nat.eqb s0 sid); unfold creg, ctry; simpl; destruct ph; simpl; eauto.
-    + destruct (Nat.eqb s0 sid); unfold creg, ctry; simpl; destruct ph; simpl; eauto.
-    + destruct ph; simpl; auto. right. exists st. right. apply creport_ph'.
-  - right. exists st. pose proof (cstep_phase sid c e) as K. cbv zeta in K.
+  - destruct e as [q|q st0| |s0 l|s0 l re|]; cbn [cstep].
+    + left; exact H.
+    + destruct (q =? s_pid (c_sub c)); [|left; exact H]. destruct (c_ph c); simpl; auto.
+    + rewrite H. unfold ctry. rewrite H. destruct (c_ph c) eqn:P; simpl; rewrite ?P; eauto.
+    + destruct (Nat.eqb s0 sid); [|left; exact H].
+      destruct (creg_inw prep_plain (cb_plain l) c H) as [K|[st K]]; eauto.
+    + destruct (Nat.eqb s0 sid); [|left; exact H].
+      destruct (creg_inw (prep_fut l) (cb_fut l re) c H) as [K|[st K]]; eauto.
+    + pose proof (cloop_phase sid c) as K. unfold cloop in *.
+      destruct (c_ph c) eqn:P.
+      * left. destruct (crun_late_ph sid c) as [_ [_ A]]. congruence.
+      * left. destruct (crun_late_ph sid c) as [_ [_ A]]. congruence.
+      * right. exists st. right. exact K.
+      * left. destruct (crun_late_ph sid c) as [_ [_ A]]. congruence.
+  - right. exists st. pose proof (cstep_phase sid c e) as K.
     destruct H as [H|H]; rewrite H in K; tauto.
 Qed.
 
@@ -264,73 +546,59 @@ Lemma fold_stable (P : cstate -> Prop) sid :
   (forall c e, P c -> P (cstep sid c e)) -> forall r c, P c -> P (fold_left (cstep sid) r c).
 Proof. intros S r. induction r as [|e r IH]; intros c H; simpl; [exact H|]. apply IH, S, H. Qed.
 
-Lemma cstep_pid sid c e : s_pid (c_sub (cstep sid c e)) = s_pid (c_sub c).
+Lemma cstep_pid sid p es c e : Inv sid p es c -> s_pid (c_sub (cstep sid c e)) = s_pid (c_sub c).
+Proof. intros H. rewrite (i_pid _ _ _ _ (Inv_step sid p es c e H)). symmetry. exact (i_pid _ _ _ _ H). Qed.
+
+(* the child's first exit is what the automaton remembers (read off the invariant) *)
+Lemma fold_exited sid p r st : first_exit p r = Some st -> exited st (fold_left (cstep sid) r (cinit p)).
 Proof.
-  destruct c as [s ph inw calls].
-  destruct e as [q|q st0| |s0 l|s0 l re|]; simpl.
-  - reflexivity.
-  - destruct (q =? s_pid s); destruct ph; reflexivity.
-  - destruct inw; unfold ctry; simpl; destruct ph; reflexivity.
-  - destruct (Nat.eqb s0 sid); unfold creg, ctry; simpl; destruct ph; reflexivity.
-  - destruct (Nat.eqb s0 sid); unfold creg, ctry; simpl; destruct ph; reflexivity.
-  - destruct ph; try reflexivity. simpl. unfold creport. simpl.
-    destruct (decode st) as [rc|]; [|reflexivity].
-    destruct (s_cb s) as [cb|]; [|reflexivity].
-    pose proof (invoke_pid sid (mkSub (s_pid s) None (Some rc) (s_futs s)) cb rc) as P.
-    destruct (invoke sid _ cb rc) as [s3 evs]. exact P.
+  intros F. pose proof (Inv_fold_pre := I).
+  assert (H : Inv sid p r (fold_left (cstep sid) r (cinit p))).
+  { assert (G : forall r es c, Inv sid p es c -> Inv sid p (es ++ r) (fold_left (cstep sid) r c)).
+    { induction r0 as [|e r0 IH]; intros es c H; simpl; [rewrite app_nil_r; exact H|].
+      replace (es ++ e :: r0) with ((es ++ [e]) ++ r0) by (rewrite <- app_assoc; reflexivity).
+      apply IH. apply Inv_step. exact H. }
+    exact (G r [] (cinit p) (Inv_init sid p)). }
+  pose proof (i_st _ _ _ _ H) as S. rewrite F in S. unfold exited.
+  destruct (c_ph (fold_left (cstep sid) r (cinit p))); simpl in S; try discriminate; injection S as ->; auto.
 Qed.
 
-(* the child's first exit is what the automaton remembers *)
-Lemma fold_exited sid r : forall c st, first_exit (s_pid (c_sub c)) r = Some st -> c_ph c = PhRun ->
-  exited st (fold_left (cstep sid) r c).
+Lemma reg_registers sid c e : cwf c -> is_reg_of sid e -> registered (cstep sid c e).
 Proof.
-  induction r as [|e r IH]; intros c st F P; [discriminate|].
-  cbn [fold_left].
-  destruct (match e with EExit q _ => q =? s_pid (c_sub c) | _ => false end) eqn:X.
-  - destruct e as [q|q st0| |s0 l|s0 l re|]; try discriminate.
-    cbn [first_exit] in F. rewrite X in F. injection F as ->.
-    apply fold_stable; [apply exited_step|]. left. cbn [cstep]. rewrite X, P. reflexivity.
-  - apply IH.
-    + rewrite cstep_pid. destruct e as [q|q st0| |s0 l|s0 l re|]; cbn [first_exit] in F; try exact F.
-      rewrite X in F. exact F.
-    + destruct c as [s ph inw calls]. cbn [c_ph c_sub] in *. subst ph.
-      destruct e as [q|q st0| |s0 l|s0 l re|]; cbn [cstep c_sub c_ph c_inw].
-      * reflexivity.
-      * rewrite X. reflexivity.
-      * destruct inw; reflexivity.
-      * destruct (Nat.eqb s0 sid); reflexivity.
-      * destruct (Nat.eqb s0 sid); reflexivity.
-      * reflexivity.
-Qed.
-
-Lemma reg_registers sid c e : is_reg_of sid e -> registered (cstep sid c e).
-Proof.
-  unfold is_reg_of, registered. destruct c as [s ph inw calls].
+  unfold is_reg_of, registered. intros W.
+  assert (K : forall prep cbof, c_inw (creg prep cbof c) = true \/
+                                 exists st, c_ph (creg prep cbof c) = PhQueued st \/ c_ph (creg prep cbof c) = PhReported st).
+  { intros prep cbof. unfold creg. destruct (s_rc (c_sub c)) eqn:Rc.
+    - right. unfold cwf in W. simpl. destruct (c_ph c); try (destruct W; congruence). eauto.
+    - unfold ctry. simpl. destruct (c_ph c); simpl; eauto. }
   destruct e as [q|q st0| |s0 l|s0 l re|]; simpl; try tauto.
-  - destruct (Nat.eqb s0 sid); [|tauto]. intros _. unfold creg, ctry. simpl. destruct ph; simpl; eauto.
-  - destruct (Nat.eqb s0 sid); [|tauto]. intros _. unfold creg, ctry. simpl. destruct ph; simpl; eauto.
+  - destruct (Nat.eqb s0 sid); [|tauto]. intros _. apply K.
+  - destruct (Nat.eqb s0 sid); [|tauto]. intros _. apply K.
 Qed.
 
-Lemma fold_registered sid r c : (exists e, In e r /\ is_reg_of sid e) -> registered (fold_left (cstep sid) r c).
+Lemma fold_registered sid r c : cwf c -> (exists e, In e r /\ is_reg_of sid e) -> registered (fold_left (cstep sid) r c).
 Proof.
-  intros [e [H K]]. apply in_split in H as [r1 [r2 ->]]. rewrite fold_left_app. simpl.
-  apply fold_stable; [apply registered_step|]. apply reg_registers. exact K.
+  intros W [e [H K]]. apply in_split in H as [r1 [r2 ->]]. rewrite fold_left_app. simpl.
+  apply fold_stable; [apply registered_step|]. apply reg_registers; [apply fold_cwf; exact W|exact K].
 Qed.
 
 (* a registration finds the zombie at once; a SIGCHLD finds it if the object is registered *)
-Lemma reg_reaps sid st c e : exited st c -> is_reg_of sid e -> reaped st (cstep sid c e).
+Lemma reg_reaps sid st c e : cwf c -> exited st c -> is_reg_of sid e -> reaped st (cstep sid c e).
 Proof.
-  unfold exited, reaped, is_reg_of. destruct c as [s ph inw calls]. simpl.
-  intros X. destruct e as [q|q st0| |s0 l|s0 l re|]; simpl; try tauto.
-  - destruct (Nat.eqb s0 sid); [|tauto]. intros _. unfold creg, ctry. simpl.
-    destruct X as [ -> | [ -> | -> ] ]; simpl; auto.
-  - destruct (Nat.eqb s0 sid); [|tauto]. intros _. unfold creg, ctry. simpl.
-    destruct X as [ -> | [ -> | -> ] ]; simpl; auto.
+  unfold exited, reaped, is_reg_of. intros W X.
+  assert (K : forall prep cbof, c_ph (creg prep cbof c) = PhQueued st \/ c_ph (creg prep cbof c) = PhReported st).
+  { intros prep cbof. destruct X as [X|X].
+    - unfold creg. unfold cwf in W. rewrite X in W. destruct W as [W _]. rewrite W.
+      unfold ctry. simpl. rewrite X. left; reflexivity.
+    - pose proof (creg_phase prep cbof c) as H. destruct X as [X|X]; rewrite X in H; auto. }
+  destruct e as [q|q st0| |s0 l|s0 l re|]; simpl; try tauto.
+  - destruct (Nat.eqb s0 sid); [|tauto]. intros _. apply K.
+  - destruct (Nat.eqb s0 sid); [|tauto]. intros _. apply K.
 Qed.
 
 Lemma sigchld_reaps sid st c : exited st c -> registered c -> reaped st (cstep sid c ESigchld).
 Proof.
-  unfold exited, reaped, registered. destruct c as [s ph inw calls]. simpl.
+  unfold exited, reaped, registered. destruct c as [s ph inw calls lt]. simpl.
   intros X Y. destruct inw; unfold ctry; simpl.
   - destruct X as [ -> | [ -> | -> ] ]; simpl; auto.
   - destruct Y as [Y|[st' Y]]; [discriminate|].
@@ -339,8 +607,8 @@ Qed.
 
 Lemma loop_reports sid st c : reaped st c -> reported st (cstep sid c ELoop).
 Proof.
-  unfold reaped, reported. destruct c as [s ph inw calls]. simpl.
-  intros [ -> | -> ]; simpl; [apply creport_ph'|reflexivity].
+  unfold reaped, reported. cbn [cstep]. pose proof (cloop_phase sid c) as H.
+  intros [E|E]; rewrite E in H; exact H.
 Qed.
 
 Lemma fold_with (P Q : cstate -> Prop) sid (e0 : event) r c :
@@ -368,7 +636,7 @@ Proof.
     + apply reaped_step.
     + intros c [A B]. apply sigchld_reaps; assumption.
     + intros c e [A B]. split; [apply exited_step|apply registered_step]; assumption.
-    + split; [apply fold_exited; [exact F|reflexivity]|apply fold_registered; exact Rg].
+    + split; [apply fold_exited; exact F|apply fold_registered; [apply cinit_cwf|exact Rg]].
 Qed.
 
 (* (B) the child is already dead when the object is registered: no SIGCHLD is needed *)
@@ -382,9 +650,9 @@ Proof.
   - apply reported_step.
   - apply loop_reports.
   - apply reaped_step.
-  - apply (fold_with (exited st) (reaped st) sid e0); try exact Rg.
+  - apply (fold_with (fun c => cwf c /\ exited st c) (reaped st) sid e0); try exact Rg.
     + apply reaped_step.
-    + intros c A. apply reg_reaps; assumption.
-    + apply exited_step.
-    + apply fold_exited; [exact F|reflexivity].
+    + intros c [W A]. apply reg_reaps; assumption.
+    + intros c e [W A]. split; [apply cstep_cwf|apply exited_step]; assumption.
+    + split; [apply fold_cwf, cinit_cwf|apply fold_exited; exact F].
 Qed.
